@@ -16,6 +16,7 @@ pub mod c14;
 pub mod c15;
 pub mod c16;
 pub mod c16ext;
+pub mod c16f64;
 pub mod c17;
 pub mod c18;
 pub mod c19;
